@@ -237,7 +237,68 @@ def _capture_sweep(db, qual, call_prysm_factory, presets=None):
     return f, it, dom, fr, node, pre, stores[0]
 
 
+def basis_fixed(run, db, qual):
+    """The change of basis decided for coefficient lists of fixed length (2, 3, 5 symbolic coefficients): the routine is interpreted
+    as it stands (helpers, tables, reversed ranges) and every entry of what it returns is compared with the back-substitution
+    b_n = (c_n - g_n b_(n+1) [- h_n b_(n+2)])/f_n unrolled from the top.  Bounded; number of obligations."""
+    from . import fixedorders as FO
+    from ..domains.normdom import Arr
+    f = db.func(qual)
+    q2d = 'Q2d' in qual
+    n_ok = 0
+    for K in (2, 3, 5):
+        for mval in ((2, -3) if q2d else (None,)):
+            it, dom = FO.q_interp(db)
+            R = dom.R
+            F = lambda name, *a: Rat(R.func(name, [Rat(R.const(x)) for x in a]))
+            cs = [Rat(R.atom('c%d' % k)) for k in range(K)]
+            kw = {f.params[0]: Tup([dom.sym('c%d' % k) for k in range(K)], 'list')}
+            if q2d:
+                kw['m'] = Const(mval)
+            res = [p for p in it.run(f, kwargs=lambda: dict(kw)) if p.outcome == 'return']
+            label = '%s(%d coefficients%s)' % (f.name, K, ', m=%d' % mval if q2d else '')
+            if len(res) != 1 or dom.lost:
+                raise AnalysisError('%s: not followed (%d returning paths%s)' % (label, len(res), ', ' + str(dom.lost) if dom.lost else ''))
+            v = res[0].value
+            cells = v.data if isinstance(v, Arr) and v.shape == (K,) else ([x for x in v.items] if isinstance(v, Tup) and len(v.items) == K else None)
+            got = [dom.rat(x) for x in cells] if cells is not None else None
+            if got is None or any(g is None for g in got):
+                raise AnalysisError('%s: the returned coefficients are not followed (%r)' % (label, v))
+            M = K - 1
+            am = abs(mval) if q2d else None
+            want = [None] * K
+            for n in range(M, -1, -1):
+                if q2d:
+                    acc = cs[n] - (F('g_q2d', n, am) * want[n + 1] if n + 1 <= M else 0)
+                    want[n] = acc / F('f_q2d', n, am)
+                else:
+                    acc = cs[n] - (F('g_qbfs', n) * want[n + 1] if n + 1 <= M else 0) - (F('h_qbfs', n) * want[n + 2] if n + 2 <= M else 0)
+                    want[n] = acc / F('f_qbfs', n)
+            bad = ['entry %d is %s, the back-substitution gives %s' % (n, got[n].key()[:120], want[n].key()[:120]) for n in range(K) if not (got[n] == want[n])]
+            run.check(not bad, 'C10.basis', f.qual, 'fixed length: ' + label, 'every entry equals the back-substitution from the top (transpose of the Q recurrence), unrolled',
+                      '%s: %s' % (label, '; '.join(bad[:2])), f.loc())
+            n_ok += 1
+    return n_ok
+
+
 def basis_rules(run, db):
+    """Both changes of basis twice: for every length by induction over the sweep (needs the sweep to be a loop of the routine over one
+    index), and for fixed lengths by unrolling (any organisation).  A routine the induction cannot read is still decided for the
+    fixed lengths; only one neither can follow is a refusal."""
+    for qual in (Q + 'change_basis_Qbfs_to_Pn', Q + 'change_of_basis_Q2d_to_Pnm'):
+        try:
+            fixed, ferr = basis_fixed(run, db, qual), None
+        except (AnalysisError, RecursionError) as e:
+            fixed, ferr = 0, e
+        try:
+            _basis_sweep_rules(run, db, qual)
+        except AnalysisError as e:
+            if not fixed:
+                raise AnalysisError('%s; and fixed lengths are not followed either: %s' % (e, ferr))
+            run.credit('C10.basis', 5, '%s: the induction over the sweep does not apply (%s); decided for %d fixed lengths' % (qual.split('.')[-1], str(e)[:140], fixed))
+
+
+def _basis_sweep_rules(run, db, only):
     """Change of basis Q -> P (the transpose of the Q recurrences) feeding the Clenshaw sums."""
     def atoms(dom):
         def call_prysm(fi, args, kwargs, node):
@@ -252,6 +313,9 @@ def basis_rules(run, db):
             (Q + 'change_of_basis_Q2d_to_Pnm', 'cns', 'ds', 'N',
              lambda R, c, b, n, extra: (c(n) - Rat(R.func('g_q2d', [n, extra])) * b(n + 1)) / Rat(R.func('f_q2d', [n, extra])),
              'd_n = (c_n - g_n^m d_(n+1))/f_n^m  (transpose of P_n = f_n Q_n + g_(n-1) Q_(n-1))')):
+        if qual != only:
+            continue
+
         def presets(dom, cname=cname, out=out):
             return {cname: dom.sym(cname), 'm': dom.sym('m')} if 'Q2d' in qual else {cname: dom.sym(cname)}
         f, it, dom, fr, node, pre, step = _capture_sweep(db, qual, atoms, presets)
@@ -262,6 +326,8 @@ def basis_rules(run, db):
         b = lambda k: Rat(R.func('idx', [tgt, k]))
         extra = dom.rat(fr.env.get('m')) if 'Q2d' in qual else None
         want = want_fn(R, c, b, n, extra)
+        if s_idx is None or s_val is None:
+            raise AnalysisError('%s: what the sweep stores (or where) is not followed as a function of the index' % f.name)
         run.check(s_idx is not None and s_idx == n and s_val is not None and s_val == want, 'C10.basis', f.qual, 'step', text,
                   '%s: the sweep stores index %s = %s, expected %s' % (f.name, s_idx.key() if s_idx is not None else '?', s_val.key() if s_val is not None else '?', want.key()), f.loc(s_node))
         from .common import degree_local
